@@ -204,9 +204,47 @@ def method(prog, type_suffix, name):
         st = re.sub(r"<.*$", "", b.raw.get("impl_self", ""))
         if st.endswith("::" + type_suffix) or st == type_suffix:
             out.append(b)
+    if len(out) == 0:
+        r = _renamed_method(prog, type_suffix, name)
+        if r is not None:
+            return r
     if len(out) != 1:
         raise AnchorLost("method %s::%s: %d matches" % (type_suffix, name, len(out)))
     return out[0]
+
+
+_SIGS = None
+
+
+def _renamed_method(prog, type_suffix, name):
+    """a crate-private method that was only renamed: the pinned `Type::name` is gone, and exactly one method of the type that
+    is not a pinned method has the pinned method's parameter and return types (rules/signatures.json, rules/vocabulary.json)"""
+    global _SIGS
+    import inline
+    if _SIGS is None:
+        _SIGS = (inline.load_sigs(), inline.load_vocab())
+    sigs, vocab = _SIGS
+    pinned = [k for k in sigs if k.endswith("::%s::%s" % (type_suffix, name)) and not k.startswith("<")]
+    if len(pinned) != 1:
+        return None
+    want = [inline._strip_paths(inline._canon_generic(x)) for x in sigs[pinned[0]]]
+    try:
+        import json as _json, os as _os
+        with open(_os.path.join(_os.path.dirname(_os.path.abspath(__file__)), "returns.json")) as fh:
+            want_ret = _json.load(fh).get(pinned[0])
+    except OSError:
+        want_ret = None
+    if want_ret is None:
+        return None
+    want_ret = inline._strip_paths(inline._canon_generic(want_ret))
+    cands = []
+    for b in methods_of(prog, type_suffix):
+        if mir.strip_generics(b.path) in vocab or b.raw.get("reachable") is True:
+            continue
+        cs = [inline._strip_paths(inline._canon_generic(b.local_ty(i))) for i in range(1, b.arg_count + 1)]
+        if cs == want and inline._strip_paths(inline._canon_generic(b.local_ty(0))) == want_ret:
+            cands.append(b)
+    return cands[0] if len(cands) == 1 else None
 
 
 def methods_of(prog, type_suffix):
